@@ -23,7 +23,7 @@ From Coq Require Import String.
 Require Import PV.Base.Prelude PV.Base.F64.
 Require Import PV.Model.Proto PV.Model.Desc PV.Model.Value PV.Model.Hist PV.Model.Vec PV.Model.Registry PV.Model.World.
 Require Import PV.Model.MacroRules PV.Model.Macros PV.Model.MacroCases PV.Model.MacroArmsPinned PV.gen.MacroArms.
-Require Import PV.Proofs.C20Facts.
+Require Import PV.Proofs.C20Facts PV.Spec.SpecC20 PV.Proofs.C20Spec.
 Open Scope string_scope.
 Open Scope list_scope.
 
@@ -191,6 +191,39 @@ Theorem c20_update_through_handle_is_gathered rho dflt c w cop vc ri rc rc' :
      end.
 Proof. exact (call_inc_gather rho dflt c w cop vc ri rc rc'). Qed.
 Print Assumptions c20_update_through_handle_is_gathered.
+
+(* ---------------------------------------------------------------------------------------------- *)
+(* 4b. the executable spec (written from the property text, Spec/SpecC20.v) holds of the model         *)
+(* ---------------------------------------------------------------------------------------------- *)
+(* For EVERY arm of the harness table (all 44 register arms and the labels! / opts! / histogram_opts! arms, whatever
+   the trailing comma) and EVERY value set - all names, help texts, label maps, label-name and label-value lists,
+   bucket lists, observed values, arm ids - whose custom registry Registry::new_custom accepts (valid prefix and
+   common label names, no common label le): the spec that the per-run check evaluates on the implementation's
+   observations is true of the model's own macro-side and twin-side observations.  Clause by clause: same result
+   kind (Ok / the register's Err / not Ok when the constructor refuses), same descriptor, same reaction to the
+   update, the targeted registry gathers as for the explicit call and is non-empty after a successful update,
+   the other registry stays empty, the duplicate is refused, nothing is registered when the invocation is not Ok. *)
+Theorem c20_spec_model (c : armrun) :
+  arm_in_table c = true -> vs_in_domain (ar_vs c) = true ->
+  spec_c20 (ar_shape c) (model_mac c) (model_twin c) = true.
+Proof. exact (spec_model c). Qed.
+Check c20_spec_model : forall c : armrun, arm_in_table c = true -> vs_in_domain (ar_vs c) = true ->
+  spec_c20 (ar_shape c) (model_mac c) (model_twin c) = true.
+Print Assumptions c20_spec_model.
+
+(* non-vacuity: a value set of the generator (prefix "my_prefix", a common label, label names, buckets) is in the
+   domain, its arm is in the table, and the model's macro side really reports an accepted registration *)
+Definition c20_ex_vs : vset :=
+  mkVS [98;98;48;95;115;48]%N [104]%N [] [] [([122;111;110;101], [97;98])]%N [] [] [] [[97]]%N [[120;32;121]]%N
+       [bits2f 0x3fb999999999999a%N; bits2f 0x3ff0000000000000%N] (bits2f 0x3fe0000000000000%N)
+       (Some [109;121;95;112;114;101;102;105;120]%N) (Some [([101;110;118], [112])]%N).
+Definition c20_ex_run : armrun :=
+  mkRun c20_ex_vs 86 "register_histogram_vec_with_registry" 2 5 (ShReg true true) (AReg KHistogramVec FHB) [] [].
+Example c20_spec_model_nonvacuous :
+  arm_in_table c20_ex_run = true /\ vs_in_domain c20_ex_vs = true
+  /\ nth_error (model_mac c20_ex_run) 2 = Some (ORes (Ok Datatypes.tt))
+  /\ (exists f, nth_error (model_mac c20_ex_run) 7 = Some (OFams [f])).
+Proof. vm_compute. repeat split; eauto. Qed.
 
 (* ---------------------------------------------------------------------------------------------- *)
 (* 5. non-vacuity: the three outcomes occur in a concrete world                                     *)
